@@ -323,3 +323,60 @@ func hexAcceptor(r *ev.Run, maxLen int) {
 	r.Set("hex_acceptor_reference_rejects", rejected.Load())
 	r.Set("hex_acceptor_line_break_inside_byte_either", either.Load())
 }
+
+// hexLongLines: the length-class family. Lines whose length sits at and around every power of two up
+// to 2^18 (pure hex digits, spaced hex bytes, and a long comment), each followed by one more line, so
+// that a per-line buffer limit or a truncated read shows up as missing bytes.
+func hexLongLines(r *ev.Run) {
+	var cases, bad int64
+	for k := uint(3); k <= 18; k++ {
+		for _, L := range []int{1<<k - 1, 1 << k, 1<<k + 1} {
+			for _, style := range []string{"digits", "spaced", "comment"} {
+				var text []byte
+				var want []byte
+				switch style {
+				case "digits":
+					n := L / 2
+					for i := 0; i < n; i++ {
+						b := byte(i*7 + 1)
+						text = append(text, nibble(b>>4, false), nibble(b&15, i%2 == 0))
+						want = append(want, b)
+					}
+				case "spaced":
+					n := L / 3
+					for i := 0; i < n; i++ {
+						b := byte(i*5 + 3)
+						text = append(text, nibble(b>>4, true), nibble(b&15, false), ' ')
+						want = append(want, b)
+					}
+				case "comment":
+					text = append(text, '0', '1', ' ', ';')
+					want = append(want, 0x01)
+					for len(text) < L {
+						text = append(text, 'c')
+					}
+				}
+				text = append(text, "\nAB cd ; tail line\n"...)
+				want = append(want, 0xab, 0xcd)
+				cases++
+				got, err, pan := callHex(string(text))
+				id := fmt.Sprintf("hex/long-line/%s/len=%d", style, L)
+				switch {
+				case pan != "":
+					bad++
+					r.Fail("hex/long-line/panic", id, map[string]any{"panic": pan})
+				case err != nil:
+					bad++
+					r.Fail("hex/long-line/rejected-valid", id, map[string]any{"error": err.Error(), "line_length": L})
+				case string(got) != string(want):
+					bad++
+					r.Fail("hex/long-line/wrong-bytes", id, map[string]any{"got_len": len(got), "want_len": len(want), "line_length": L})
+				}
+			}
+		}
+	}
+	r.Evals(cases)
+	r.Nontrivial(cases - bad)
+	r.Set("hex_long_line_cases", cases)
+	r.Sample(map[string]any{"hex_long_line": "one line of 65536 hex digits followed by 'AB cd ; tail line'", "expect": "32768 + 2 bytes"})
+}
